@@ -30,6 +30,9 @@ pub enum Term {
     /// 2: alternating next()/next_back() until both are exhausted) or by internal iteration
     /// (3: for_each, 4: count, 5: last, 6: sum)
     IterExhaustBack(u8, u8, u8),
+    /// with_finish(k); one adaptor over n items runs dry, the bar is reset() through another handle, and the
+    /// same adaptor is polled again (it reports its end once more): the bar is completed again, the same way
+    IterTwice(u8, u8),
 }
 
 #[derive(Debug, Clone, Serialize, Deserialize)]
@@ -167,7 +170,7 @@ fn run_single(c: &SingleCase) -> CaseResult {
         Term::FinishAndClear => 2,
         Term::Abandon => 3,
         Term::AbandonWithMessage(_) => 4,
-        Term::FinishUsingStyle(k) | Term::DropWith(k) | Term::IterExhaust(k, ..) | Term::IterExhaustBack(k, ..) => *k % 5,
+        Term::FinishUsingStyle(k) | Term::DropWith(k) | Term::IterExhaust(k, ..) | Term::IterExhaustBack(k, ..) | Term::IterTwice(k, _) => *k % 5,
     };
     let left_alone = refinish && matches!(c.term, Term::IterExhaust(..) | Term::IterExhaustBack(..));
     if !left_alone {
@@ -177,6 +180,12 @@ fn run_single(c: &SingleCase) -> CaseResult {
         Term::FinishWithMessage(m) | Term::AbandonWithMessage(m) => fin.msg = m.clone(),
         // an adaptor over an already finished bar only counts
         Term::IterExhaust(_, n, _) | Term::IterExhaustBack(_, n, _) if left_alone => fin.pos = st.pos.wrapping_add(*n as u64),
+        Term::IterTwice(..) => {
+            // after the reset the second end of the adaptor completes a bar that stands at 0
+            if !matches!(k_of(&c.term), 0 | 1 | 2) || fin.len.is_none() {
+                fin.pos = 0;
+            }
+        }
         Term::IterExhaust(_, n, _) | Term::IterExhaustBack(_, n, _) => {
             // the items are counted first
             if !matches!(k_of(&c.term), 0 | 1 | 2) || fin.len.is_none() {
@@ -225,6 +234,14 @@ fn run_single(c: &SingleCase) -> CaseResult {
             let items: Vec<u8> = (0..*n).collect();
             let got: Vec<u8> = if *via_wrap { pb.wrap_iter(items.clone().into_iter()).collect() } else { items.clone().into_iter().progress_with(pb.clone()).collect() };
             assert_eq!(got, items);
+            handle = Some(pb.clone());
+        }
+        Term::IterTwice(k, n) => {
+            pb = pb.clone().with_finish(finish_of(*k));
+            let mut it = pb.wrap_iter((0..*n).collect::<Vec<u8>>().into_iter());
+            while it.next().is_some() {}
+            pb.reset();
+            assert!(it.next().is_none());
             handle = Some(pb.clone());
         }
         Term::IterExhaustBack(k, n, mode) => {
@@ -280,6 +297,8 @@ fn run_single(c: &SingleCase) -> CaseResult {
     if !is_drop {
         let h = handle.as_ref().unwrap();
         ensure!(h.is_finished(), "not_finished", "{ctx}: is_finished() is false afterwards");
+        // (the final state: nothing is left to wait for, whichever way the bar was completed)
+        ensure!(h.eta() == Duration::ZERO, "final_eta", "{ctx}: eta() = {:?} on the completed bar", h.eta());
         ensure!(h.position() == fin.pos, "final_position", "{ctx}: position() = {}, expected {}", h.position(), fin.pos);
         let want_msg = crate::model::expand_tabs(&fin.msg, fin.tab_width);
         ensure!(h.message() == want_msg, "final_message", "{ctx}: message() = {:?}, expected {:?}", h.message(), want_msg);
@@ -292,7 +311,7 @@ fn run_single(c: &SingleCase) -> CaseResult {
         if let Some(again) = c.again.as_ref().filter(|_| !left_alone) {
             // reset and complete a second time: the stored finish behaviour must still apply
             let stored = match &c.term {
-                Term::FinishUsingStyle(k) | Term::IterExhaust(k, ..) | Term::IterExhaustBack(k, ..) => *k % 5,
+                Term::FinishUsingStyle(k) | Term::IterExhaust(k, ..) | Term::IterExhaustBack(k, ..) | Term::IterTwice(k, _) => *k % 5,
                 _ => 2,
             };
             let h = handle.take().unwrap();
@@ -368,6 +387,7 @@ fn run_single(c: &SingleCase) -> CaseResult {
         Term::FinishUsingStyle(_) => "finish_using_style",
         Term::DropWith(_) => "drop_last_handle",
         Term::IterExhaust(..) => "iterator_exhausted",
+        Term::IterTwice(..) => "same_adaptor_runs_dry_again_after_reset",
         Term::IterExhaustBack(_, _, m) if m % 7 >= 3 => "iterator_exhausted_by_internal_iteration",
         Term::IterExhaustBack(..) => "iterator_exhausted_from_the_back",
     });
@@ -387,6 +407,7 @@ fn single_strategy(tier: Tier) -> BoxedStrategy<SingleCase> {
         (0u8..5).prop_map(Term::DropWith),
         (0u8..5, 0u8..6, any::<bool>()).prop_map(|(k, n, w)| Term::IterExhaust(k, n, w)),
         (0u8..5, 0u8..6, 0u8..7).prop_map(|(k, n, m)| Term::IterExhaustBack(k, n, m)),
+        (0u8..5, 0u8..6).prop_map(|(k, n)| Term::IterTwice(k, n)),
     ];
     (3u8..=10, 6u8..=40)
         .prop_flat_map(move |(rows, cols)| {
@@ -760,7 +781,7 @@ pub fn property() -> Property {
                 cases: |t| t.pick(15_000, 1_000_000),
                 run: run_single,
                 signature: no_signature,
-                essential: &["limiter_exhausted_at_terminator", "limiter_not_exhausted", "explicit_call", "finish_using_style", "drop_last_handle", "iterator_exhausted", "iterator_exhausted_from_the_back", "iterator_exhausted_by_internal_iteration", "terminator_on_already_finished_bar", "iterator_ends_on_a_bar_finished_from_the_loop_body", "clock_reset_after_finish", "clearing_variant", "second_completion_after_reset"],
+                essential: &["limiter_exhausted_at_terminator", "limiter_not_exhausted", "explicit_call", "finish_using_style", "drop_last_handle", "iterator_exhausted", "iterator_exhausted_from_the_back", "iterator_exhausted_by_internal_iteration", "terminator_on_already_finished_bar", "iterator_ends_on_a_bar_finished_from_the_loop_body", "same_adaptor_runs_dry_again_after_reset", "clock_reset_after_finish", "clearing_variant", "second_completion_after_reset"],
                 workers: w,
                 decode: None,
             }),
